@@ -79,6 +79,7 @@ class Probe(SourceProxy):
             self._ol = BaseOverlay(*rules)
             self._raw = raw
             self._activated = False
+            self._live = False
 
     def _make_emitter(self, sel):
         tags = set(sel.all_tags)
@@ -143,6 +144,14 @@ class Probe(SourceProxy):
     # Context manager #
     ###################
 
+    def _push(self, data):
+        # What happens while the probe is not active is not part of the
+        # stream (e.g. a generator that was started while it was active
+        # and is resumed afterwards, or the subscribers that are told
+        # about the end of the stream)
+        if self._live:
+            super()._push(data)
+
     def _emit(self, data, acc=None, element=None):
         """Emit data on the stream.
 
@@ -180,6 +189,7 @@ class Probe(SourceProxy):
 
         self._install_tooling()
         self._activated = True
+        self._live = True
         global_probes.add(self)
         self._ol.__enter__()
         return self
@@ -198,6 +208,7 @@ class Probe(SourceProxy):
         if self not in global_probes:
             # Already deactivated (e.g. deactivate() in the with block)
             return
+        self._live = False
 
         # A subscriber may raise an error upon completion (e.g. min() when
         # there were no elements): complete the others and deactivate the
